@@ -194,14 +194,24 @@ def transform_fns(D: int) -> List[Fn]:
              "SimilarityTransform", "FullAffineTransform", "HomogeneousTransform", "DisplacementFieldTransform", "StationaryVelocityFieldTransform",
              "FreeFormDeformation", "StationaryVelocityFreeFormDeformation", "QuaternionRotation", "RigidQuaternionTransform"]
     fns: List[Fn] = []
-    for name in names:
-        cls = getattr(S, name, None)
+    # user-composed composites: the gradient has to pass through homogeneous_matmul / the sum of displacements
+    composites = {
+        "Sequential(Translation,Homogeneous)": (S.SequentialTransform, (S.Translation, S.HomogeneousTransform)),
+        "Sequential(Translation,Rigid)": (S.SequentialTransform, (S.Translation, S.RigidTransform)),
+        "Sequential(Homogeneous,Translation)": (S.SequentialTransform, (S.HomogeneousTransform, S.Translation)),
+        "Sequential(Affine,DDF)": (S.SequentialTransform, (S.AffineTransform, S.DisplacementFieldTransform)),
+        "Sequential(FFD,Rigid)": (S.SequentialTransform, (S.FreeFormDeformation, S.RigidTransform)),
+        "MultiLevel(Translation,Rigid,Affine)": (S.MultiLevelTransform, (S.Translation, S.RigidTransform, S.AffineTransform)),
+        "MultiLevel(Affine,FFD)": (S.MultiLevelTransform, (S.AffineTransform, S.FreeFormDeformation)),
+    }
+    for name in names + list(composites):
+        cls = composites.get(name) or getattr(S, name, None)
         if cls is None or ("Quaternion" in name and D == 2):
             continue
 
         def build(cls=cls, name=name):
             grid = Grid(size=size, spacing=(1.0, 0.8, 1.25)[:D])
-            t = cls(grid).double()
+            t = (cls(grid) if not isinstance(cls, tuple) else cls[0](*[m(grid) for m in cls[1]])).double()
             with torch.no_grad():
                 for i, p in enumerate(t.parameters()):
                     if p.ndim >= 4:  # dense fields / control point grids: smooth
@@ -343,11 +353,18 @@ def record(fn: Fn, k0: int, ndirs: int, seed: int) -> Tuple[List[dict], Optional
             F0 = f(vals)
         if not isinstance(F0, Tensor) or F0.numel() != 1:
             return [], "not scalar"
-        # an output detached from all inputs is not "uncallable": the difference quotients decide whether a gradient is missing
-        grads = torch.autograd.grad(F0, vals, allow_unused=True) if F0.requires_grad else tuple(None for _ in vals)
     except Exception as ex:  # the operation cannot be built / called in this form: not judged
         return [], f"{type(ex).__name__}: {str(ex)[:100]}"
-    f32 = F0.dtype == torch.float32 or SAW_F32[0] or fn.family in F32_FAMILIES
+    backward_error = None
+    try:
+        # an output detached from all inputs is not "uncallable": the difference quotients decide whether a gradient is missing
+        grads = torch.autograd.grad(F0, vals, allow_unused=True) if F0.requires_grad else tuple(None for _ in vals)
+    except RuntimeError as ex:  # the forward pass worked but the backward pass refuses (e.g. a saved tensor was modified in place)
+        backward_error = str(ex)[:160]
+        grads = tuple(None for _ in vals)
+    grid_based = fn.family in F32_FAMILIES or (fn.family in ("transform:tensor", "transform:inverse-tensor")
+                                              and any(w in fn.name for w in ("DDF", "FFD", "Displacement", "Velocity", "FreeForm")))
+    f32 = F0.dtype == torch.float32 or SAW_F32[0] or grid_based
     eps0 = 8e-3 if f32 else 1e-4
     mach = 1.2e-7 if f32 else 2.3e-16
     evs = []
@@ -382,9 +399,9 @@ def record(fn: Fn, k0: int, ndirs: int, seed: int) -> Tuple[List[dict], Optional
             noise = mach * max(abs(float(F0)), 1.0) * 4 / (eps / 2) / m
             if not all(math.isfinite(q) for q in qs) or not math.isfinite(gd):
                 finite, gd, qs = (False if not math.isfinite(gd) else finite), 0.0, [0.0, 0.0]
-            evs.append(dict(op=fn.name, family=fn.family, wrt=lab, k=k0 + len(evs) + 1, reaches=reaches, finite=finite, pw=fn.family in F32_FAMILIES,
+            evs.append(dict(op=fn.name, family=fn.family, wrt=lab, k=k0 + len(evs) + 1, reaches=reaches, finite=finite, pw=grid_based,
                             gd=int(round(gd / m * 1e6)), fd1=int(round(qs[0] / m * 1e6)), fd2=int(round(qs[1] / m * 1e6)),
-                            noise=min(int(noise * 1e6) + 1, 10 ** 9), raw=dict(gd=gd, fd=qs, F=float(F0), eps=eps, f32=f32)))
+                            noise=min(int(noise * 1e6) + 1, 10 ** 9), raw=dict(gd=gd, fd=qs, F=float(F0), eps=eps, f32=f32, backward_error=backward_error)))
     return evs, None
 
 
@@ -423,7 +440,8 @@ def run(ctx: Ctx) -> None:
         for line, clause in lst:
             e = traces[tid][line]
             ctx.violation(dict(layer="fd", op=e["op"].split("[")[0], family=e["family"], wrt=e["wrt"], what=clause),
-                          f"{e['op']} w.r.t. {e['wrt']}: {clause}: autograd directional derivative {e['raw']['gd']:.6g}, central differences {e['raw']['fd'][0]:.6g} / "
+                          f"{e['op']} w.r.t. {e['wrt']}: {clause}" + (f" (backward pass raised: {e['raw']['backward_error']})" if e["raw"].get("backward_error") else "") +
+                          f": autograd directional derivative {e['raw']['gd']:.6g}, central differences {e['raw']['fd'][0]:.6g} / "
                           f"{e['raw']['fd'][1]:.6g} (steps {e['raw']['eps']:.1e}, /2; F = {e['raw']['F']:.6g})", dict(fn=e["op"], wrt=e["wrt"]))
     ctx.traces = nval
     judged = sum(1 for t in traces for e in t[1:] if abs(e["fd1"] - e["fd2"]) <= 20000)
